@@ -71,11 +71,17 @@ def static_cases(ctx):
         # bins of accumulators with nested / mutable members too: every bin must own its state
         cls = rng.choice(['Counter', 'Mean', 'CacheAccumulator', 'Variance', 'Maximum', 'CacheMaximum', 'RunningVariance'])
         kw = {'length': 3} if cls in ('CacheAccumulator', 'CacheMaximum') else ({'lifetime': 3} if cls == 'RunningVariance' else {})
-        bs = A.BinSorter(edges, getattr(A, cls), kwargs=kw, key=lambda o: o[0], datakey=lambda o: o[1])
+        passed_kw = dict(kw)
+        bs = A.BinSorter(edges, getattr(A, cls), kwargs=passed_kw, key=lambda o: o[0], datakey=lambda o: o[1])
+        edited = bool(kw) and rng.random() < 0.6
+        if edited:
+            # the caller goes on using ITS dict (for the next sorter, with another setting): the sorter was configured when it was made
+            passed_kw.update({k: 1 if k == 'length' else 50 for k in kw})
+            ctx.count('kwargs_dict_edited_after_construction')
         # pre-aggregated partial results as data: an element that is itself an accumulator of the bin's class is MERGED into the bin
         partials = cls in ('Counter', 'Mean') and rng.random() < 0.3
         xedges = [float(e) for e in edges] if narrow else edges          # exact values of the edges (as Python numbers)
-        case = dict(static=True, edges=[e for e in xedges], keys=[float(k) if narrow else k for k in keys], cls=cls, narrow_side=narrow, partial_results_as_data=partials)
+        case = dict(static=True, edges=[e for e in xedges], keys=[float(k) if narrow else k for k in keys], cls=cls, narrow_side=narrow, partial_results_as_data=partials, kwargs_dict_edited_after_construction=edited)
         edges_for_oracle = xedges
         nb = len(edges) - 1
         bins = [[] for _ in range(nb)]
